@@ -134,6 +134,7 @@ func genC06Plan() *rapid.Generator[churnPlan] {
 			DelayPct: rapid.SampledFrom([]int{0, 30, 80}).Draw(t, "delayPct"),
 			Seed:     rapid.Int64Range(1, 1<<40).Draw(t, "netSeed"),
 		}
+		p.LogJitterPct = rapid.SampledFrom([]int{0, 0, 15, 50}).Draw(t, "logJitterPct")
 		for ph, n := 0, rapid.IntRange(1, 3).Draw(t, "phases"); ph < n; ph++ {
 			focus := rapid.IntRange(0, 7).Draw(t, "focus")
 			var phase churnPhase
@@ -229,6 +230,9 @@ func TestC06(t *testing.T) {
 		}
 		doc := map[string]any{"plan": plan, "churn_log": out.Log, "refusals": refusals, "members_at_end": liveIDs(r.live())}
 		labels := []string{}
+		if plan.LogJitterPct > 0 {
+			labels = append(labels, "log-jitter")
+		}
 		if refusals > 0 {
 			labels = append(labels, "has-refusal")
 		}
